@@ -391,8 +391,12 @@ class Ratio:
         if n is None:
             if isinstance(o, Sym) and o._val() is not None:
                 n = o._val()
+            elif isinstance(o, Sym):
+                return self.num, self.den * o       # non-linear product atom (NRA)
+            elif isinstance(o, Ratio):
+                return self.num * o.den, self.den * o.num
             else:
-                raise HarnessError("ratio compared with a symbolic value (non-linear)")
+                raise HarnessError("ratio compared with %r" % type(o))
         if isinstance(n, float):
             return None, n
         return self.num, self.den * n
@@ -730,10 +734,14 @@ class ExactQ:
         return self._c(o, lambda a, b: a >= b)
 
     def __eq__(self, o):
+        if isinstance(o, (Sym, Ratio)):
+            return NotImplemented          # let the proxy build the condition
         r = self._c(o, lambda a, b: a == b)
         return False if r is NotImplemented else r
 
     def __ne__(self, o):
+        if isinstance(o, (Sym, Ratio)):
+            return NotImplemented
         return not self.__eq__(o)
 
     def __hash__(self):
